@@ -5,7 +5,9 @@ From Coupe Require Import Lib.Prelude Lib.Report Lib.Graph Model.Kl Gen.KlGen.
 Open Scope Z_scope.
 
 Record case15 := mk15 {
-  c_g : graph; c_sprs : bool (* CsMatView (true) or a topology with the trait's own edge_cut *); c_wlen : nat; c_p0 : list N;
+  c_g : graph; c_sprs : bool (* CsMatView (true) or a topology with the trait's own edge_cut *);
+  c_model : bool (* evaluate the model too (false: thousands of vertices and unlimited flips -- certified checker only) *);
+  c_wlen : nat; c_p0 : list N;
   c_mp : option N; c_mf : option N; c_mb : N;
   c_impl : impl_res }.
 
@@ -14,14 +16,14 @@ Definition eval15 (c : case15) : verdict :=
                few_ids_return := kl_few_ids_return; sprs_cut := c_sprs c |} in
   let g := c_g c in
   let p0 := c_p0 c in
-  let r := kl cfg (kl_fuel (c_sprs c) g p0) g (c_wlen c) p0 in
-  let corr := res_matches r (c_impl c) in
+  (* the model is evaluated inside the branch (vm_compute is call-by-value) *)
+  let corr := if c_model c then res_matches (kl cfg (kl_fuel (c_sprs c) g p0) g (c_wlen c) p0) (c_impl c) else true in
   let two_ids := Nat.leb (length (uniq [] p0)) 2 in
   (* usage contract of the property: square well-formed symmetric matrix (CSR: sorted rows) with positive
      weights, as many vertex weights as vertices, at most two part ids in use *)
   let in_contract :=
     wf_graphb g (length p0) && (negb (c_sprs c) || rows_sortedb g) && Nat.eqb (c_wlen c) (length p0)
-    && symmetricb g && pos_edgesb g && two_ids in
+    && symmetricb_fast g && pos_edgesb g && two_ids in
   let prop :=
     if in_contract then
       match c_impl c with
